@@ -259,15 +259,16 @@ func trunc(b []byte) []byte {
 }
 
 var mediaPool = []string{"application/json", "application/protobuf", "application/octet-stream", "application/*", "*/*", "text/*", "text/html", "image/png",
-	"application/xml", "application/x-protobuf", "application/json+x", "APPLICATION/JSON", "Application/Protobuf", "*/json"}
-var qPool = []string{"", "", "", ";q=0", ";q=1", ";q=0.5", ";q=0.001", ";q=0.9", "; q=0.2", ";q=1.0", ";q=0.000", ";q=", ";q=2", ";q=abc", ";q=0.1234", ";charset=utf-8", ";charset=utf-8;q=0.3", ";q=0.3;ext=1", " ;q=0.7"}
+	"application/xml", "application/x-protobuf", "application/json+x", "APPLICATION/JSON", "Application/Protobuf", "*/json",
+	"application/json", "application/protobuf", "application/octet-stream", "application/*", "*/*", "text/html", "application/json", "application/protobuf"}
+var qPool = []string{"", "", "", "", "", "", "", ";q=0.8", ";q=0.1", ";q=0", ";q=0.5", ";q=1", ";q=0.25", ";q=0", ";q=1", ";q=0.5", ";q=0.001", ";q=0.9", "; q=0.2", ";q=1.0", ";q=0.000", ";q=", ";q=2", ";q=abc", ";q=0.1234", ";charset=utf-8", ";charset=utf-8;q=0.3", ";q=0.3;ext=1", " ;q=0.7"}
 var junkPool = []string{"", "garbage", ",,", ";", "application/", "/json", "google.api.HttpBody", "a/b/c", "\"quoted\"", "  ", "application/json application/protobuf", "q=0.5"}
 
 func genAcceptLine(t *rapid.T) string {
 	n := rapid.IntRange(0, 4).Draw(t, "nranges")
 	var parts []string
 	for i := 0; i < n; i++ {
-		if rapid.IntRange(0, 11).Draw(t, "junk") == 0 {
+		if rapid.IntRange(0, 24).Draw(t, "junk") == 0 {
 			parts = append(parts, rapid.SampledFrom(junkPool).Draw(t, "junkv"))
 			continue
 		}
